@@ -92,7 +92,25 @@ func (propC19) Gen(seed uint64, tier string, idx int) *Plan {
 		}
 		p.Ops = append(p.Ops, op)
 	}
-	if fault && r.Chance(300) {
+	if fault && p.Stack.Engine == "olla" && nEp >= 2 && nOps >= 8 && r.Chance(400) {
+		// one endpoint is down for good and is looked at by request after request: once its circuit is open the
+		// engine only skips it, and a skip is not an attempt
+		// (it closes every connection without answering: that is no connection error for the retry handler, so
+		// the endpoint stays in rotation and only the engine's breaker remembers)
+		dead := Resp{Kind: "llm", Status: 200, Fault: &Fault{At: "before-headers", Kind: "fin"}}
+		p.Endpoints[0].Default = dead
+		for j := range p.Endpoints[0].Seq {
+			p.Endpoints[0].Seq[j] = dead
+		}
+		p.Endpoints[0].HostMode = nil
+		p.Endpoints[0].Priority = 200
+		p.Stack.Balancer = "priority"
+		for i := range p.Ops {
+			p.Ops[i].Abort = nil
+			p.Ops[i].At = time.Duration(i) * 150 * time.Millisecond
+		}
+		p.Sub += "/dead-preferred-endpoint"
+	} else if fault && r.Chance(300) {
 		// "...and panics": some attempts panic between the gauge increment and the engine call
 		p.Panics = map[string]int{"proxy.attempt": pickS(r, []int{30, 100, 300})}
 		p.Sub += "/panics"
@@ -249,20 +267,62 @@ func (propC19) Check(r *Run) []Violation {
 	if incs != decs {
 		add("C19/increments-not-matched", "%d increments, %d decrements at rest", incs, decs)
 	}
+	// ... and nothing that is not an attempt is recorded as one: an endpoint the engine only looked at (its
+	// circuit is open) was not contacted, and is not to be charged a failed request. Contacts are counted on
+	// the wire: requests that arrived at the backend plus connection attempts that failed.
+	contacts := map[string]int{}
+	nameOf := map[string]string{}
+	for _, ep := range r.Plan.Endpoints {
+		nameOf[ep.Host] = ep.Name
+	}
+	for _, e := range r.Exchanges {
+		if e.Kind == "proxy" {
+			contacts[e.Backend]++
+		}
+	}
+	for _, d := range r.Sim.Dials() {
+		if d.Role == "olla" && d.Outcome != "ok" {
+			contacts[nameOf[d.Target]]++
+		}
+	}
 	// an attempt that was made to panic by the simulator (before the engine's own code ran) never gets to
 	// record anything: at most that many records may be missing in total, never a record too many
 	fl, _ := r.Sim.Counters()
 	panics := fl["panic.proxy.attempt"]
 	missing := 0
 	for ep, n := range attempts {
-		if records[ep] > n || (records[ep] < n && panics == 0) {
+		// (the selector's count is raised for an endpoint the olla engine then only skips because its circuit is
+		// open: such a look is not an attempt and leaves no record; the wire says how many there were)
+		skips := 0
+		if r.Plan.Stack.Engine == "olla" && n > contacts[ep] {
+			skips = n - contacts[ep]
+		}
+		if records[ep] > n || (records[ep] < n-skips && panics == 0) {
 			add("C19/attempt-not-recorded-exactly-once", "endpoint %s: %d attempts but %d RecordRequest calls (engine %s)", ep, n, records[ep], r.Plan.Stack.Engine)
 		} else {
-			missing += n - records[ep]
+			if m := n - skips - records[ep]; m > 0 {
+				missing += m
+			}
 		}
 	}
 	if missing > panics {
 		add("C19/attempt-not-recorded-exactly-once", "%d attempts have no record although only %d were interrupted by an injected panic (engine %s)", missing, panics, r.Plan.Stack.Engine)
+	}
+	quietClients := len(r.Plan.Panics) == 0
+	for _, op := range r.Plan.Ops {
+		if op.Abort != nil {
+			quietClients = false // (a client that leaves while the engine is between steps blurs what counts as a contact)
+		}
+	}
+	for _, c := range r.Results {
+		if c.Status == 0 || c.TimedOut {
+			quietClients = false // (a request still queued behind a stalled exchange when the run ends has not shown on the wire yet)
+		}
+	}
+	for ep, n := range records {
+		if ep != "" && n > contacts[ep] && r.Plan.StmtYieldPermille == 0 && quietClients {
+			add("C19/recorded-without-an-attempt", "endpoint %s: %d RecordRequest calls but it was contacted %d times (requests that reached it plus failed connection attempts); engine %s", ep, n, contacts[ep], r.Plan.Stack.Engine)
+		}
 	}
 	for ep, n := range records {
 		if _, ok := attempts[ep]; !ok && n > 0 && ep != "" {
